@@ -27,7 +27,7 @@ TRUSTED_BASE = [
     "peer set-up: the real server's advertised limits are set through its private _local_max_* fields before the "
     "handshake (the server is the vehicle for the transport parameters, not the subject)",
     "model inputs are collected with harness-side wrappers around QuicStreamSender.get_frame / get_reset_frame / "
-    "on_data_delivery / on_reset_delivery and QuicLoggerTrace.log_event (taps only; received frames are read from "
+    "on_data_delivery / on_reset_delivery, QuicStreamReceiver.get_stop_frame / on_stop_sending_delivery and QuicLoggerTrace.log_event (taps only; received frames are read from "
     "the subject's qlog frame lists in processing order)",
     "LABELLED PEEKS (correspondence only, never the oracle): QuicConnection._remote_max_data_used, _remote_max_data, "
     "_remote_max_streams_*, _streams_blocked_*, _streams[sid].{is_blocked,max_stream_data_remote,sender.*}",
@@ -37,7 +37,7 @@ TRUSTED_BASE = [
 ]
 ASSUMPTIONS = [
     "positive theorems assume transport parameters never lower a flow-control value the connection already holds "
-    "(RFC 9000 7.4.1 for accepted 0-RTT); the complement is refuted with a witness (candidate finding C06-F1)",
+    "(RFC 9000 7.4.1 for accepted 0-RTT); the complement is refuted with a witness (open known finding C06-F1)",
     "frame-level theorems assume each emitted frame receives at most one delivery outcome (C08 callbacks_at_most_once)",
     "stream discarding (_streams.pop of finished streams) and re-creation of a discarded stream id are not modelled",
 ]
@@ -45,25 +45,7 @@ ASSUMPTIONS = [
 BIG = 1 << 30
 SIM_SEED_BASE = 600
 
-# Candidate aioquic defects found by this check on the pinned tree (docs/C06.md).  known_findings.json is a
-# shared file; until these classes are listed there they are matched here, structurally, so that the check
-# stays quiet on the unchanged tree while any *other* violation of C06 is still reported.
-LOCAL_CANDIDATES = [
-    {"id": "C06-F1", "match": {"rule": "stream_data_limit", "after_zero_rtt_lowered": True},
-     "what": "streams created from remembered 0-RTT parameters keep the remembered max_stream_data after the "
-             "handshake delivered a smaller value"},
-    {"id": "C06-F1", "match": {"rule": "stream_count", "after_zero_rtt_lowered": True},
-     "what": "streams created from remembered 0-RTT parameters stay open although the handshake delivered a "
-             "smaller max_streams"},
-    {"id": "C06-F1", "match": {"rule": "connection_data_limit", "after_zero_rtt_lowered": True},
-     "what": "data sent (or re-sent after a rejected 0-RTT) under the remembered max_data exceeds the smaller "
-             "max_data delivered by the handshake"},
-    {"id": "C06-F2", "match": {"rule": "stream_count", "frame": "RESET_STREAM", "never_opened": True},
-     "what": "reset_stream() on a stream blocked by the stream-count limit emits RESET_STREAM beyond MAX_STREAMS"},
-    {"id": "C06-F2", "match": {"rule": "stream_count", "frame": "STOP_SENDING", "never_opened": True},
-     "what": "stop_stream() on a stream blocked by the stream-count limit emits STOP_SENDING beyond MAX_STREAMS"},
-]
-CANDIDATE_HITS = collections.Counter()
+KNOWN_HITS = collections.Counter()   # measured: scenarios per known-finding id (decided by known_findings.json)
 
 
 def data_for(sid, off, n):
@@ -146,7 +128,9 @@ def run_scenario(case, fair=True):
     R = _Rec()
     S = qstream.QuicStreamSender
     T = qlogger.QuicLoggerTrace
+    RV = qstream.QuicStreamReceiver
     saved = (S.get_frame, S.get_reset_frame, S.on_data_delivery, S.on_reset_delivery, T.log_event)
+    saved_rv = (RV.get_stop_frame, RV.on_stop_sending_delivery)
     subject_trace = {}
 
     def is_subject_trace(tr):
@@ -226,9 +210,23 @@ def run_scenario(case, fair=True):
                 R.op("params", [6] + _params_tokens(data), [0])
         return saved[4](self, category=category, event=event, data=data)
 
+    def w_get_stop_frame(self):
+        r = saved_rv[0](self)
+        if R.depth and self._stream_id is not None:
+            sync()
+            R.op("get_stop", [15, self._stream_id], [7])
+        return r
+
+    def w_on_stop_sending_delivery(self, delivery):
+        if R.depth and self._stream_id is not None:
+            sync()
+            R.op("stop_deliv", [16, self._stream_id, int(delivery == QuicDeliveryState.ACKED)], [0])
+        return saved_rv[1](self, delivery)
+
     S.get_frame, S.get_reset_frame, S.on_data_delivery, S.on_reset_delivery = (
         w_get_frame, w_get_reset_frame, w_on_data_delivery, w_on_reset_delivery)
     T.log_event = w_log_event
+    RV.get_stop_frame, RV.on_stop_sending_delivery = w_get_stop_frame, w_on_stop_sending_delivery
     try:
         kw = {}
         if zero:
@@ -274,7 +272,7 @@ def run_scenario(case, fair=True):
             for sid in sids:
                 st = conn._streams[sid]
                 out += [1, int(st.is_blocked), st.max_stream_data_remote, st.sender.highest_offset,
-                        int(st.sender.buffer_is_empty), int(st.sender.reset_pending)]
+                        int(st.sender.buffer_is_empty), int(st.sender.reset_pending), int(st.receiver.stop_pending)]
             R.op("observe", [13, len(sids)] + sids, out)
 
         def check_closed():
@@ -310,11 +308,11 @@ def run_scenario(case, fair=True):
                     killed.add(step[1])
                     R.op("reset", tin, [1, 0])
                 elif k == "stop":
-                    client.stop_stream(step[1], step[2])      # receive side; oracle only
+                    tin = [14, step[1]]
+                    client.stop_stream(step[1], step[2])
+                    R.op("stop", tin, [0])
             except sim.ApiRaised as e:
                 api_errors += 1
-                if k == "stop":
-                    return
                 if isinstance(e.exc, ValueError):
                     R.op(k + "_valueerror", tin, [3])
                 elif isinstance(e.exc, AssertionError):
@@ -437,6 +435,7 @@ def run_scenario(case, fair=True):
         return {"tin": tin, "tout": tout, "names": R.names, "wire": wire, "api_errors": api_errors}
     finally:
         S.get_frame, S.get_reset_frame, S.on_data_delivery, S.on_reset_delivery, T.log_event = saved
+        RV.get_stop_frame, RV.on_stop_sending_delivery = saved_rv
 
 
 _PNAMES = ["max_data", "max_stream_data_bidi_local", "max_stream_data_bidi_remote", "max_stream_data_uni",
@@ -557,13 +556,6 @@ def wire_oracle(w):
     return bad
 
 
-def _candidate(sig):
-    for c in LOCAL_CANDIDATES:
-        if all(sig.get(k) == v for k, v in c["match"].items()):
-            return c
-    return None
-
-
 # ------------------------------------------------------------------------------------------------
 # suite plumbing
 _CACHE = {}
@@ -593,23 +585,20 @@ def fs_impl(case):
     return _result(case)["tout"]
 
 
-def fs_oracle(case):
+def all_violations(case):
     r = _result(case)
     if r.get("wire") is None:
-        return ("scenario driver failed: %s" % r.get("error"), {"rule": "driver"})
-    seen = set()
-    first = None
-    for what, sig in wire_oracle(r["wire"]):
-        c = _candidate(sig)
-        if c is not None:
-            seen.add(c["id"])
-        elif first is None:
-            first = (what, sig)
-    if first is None and r.get("anomaly"):
-        first = r["anomaly"]
-    for cid in seen:
-        CANDIDATE_HITS[cid] += 1
-    return first
+        return [("scenario driver failed: %s" % r.get("error"), {"rule": "driver"})]
+    return wire_oracle(r["wire"])
+
+
+def _known_id(ctx, sig):
+    """Which OPEN entry of the shared known_findings.json (if any) this signature falls under.  Only used to decide
+    whether shrinking is worth the time and for the measured counts; the verdict is ctx.violation's."""
+    for kf in ctx.known:
+        if kf.get("property") == ctx.pid and kf.get("status") == "open" and core._sig_match(kf.get("match", {}), sig):
+            return kf["id"]
+    return None
 
 
 def _steps(case):
@@ -780,6 +769,19 @@ def directed_cases():
             out.append({"seed": 2, "peer": peer, "steps": [
                 ["send", base + 4 * cap, 5, 0], ["pump"], ["send", base + 4 * max(0, cap - 1), 7, 0], ["pump"],
                 ["max_streams", uni, cap], ["pump"], ["max_streams", uni, cap + 1], ["pump"], ["ack", "all"]]})
+    # several streams competing for the connection credit inside one packet / one transmit
+    for md in (0, 1, B, B + 1):
+        for n in (B - 1, B, B + 1):
+            out.append({"seed": 2, "peer": [md, 1000, 1000, 1000, 4, 4], "steps": [
+                ["send", 0, n, 0], ["send", 4, n, 0], ["send", 2, n, 1], ["pump"], ["max_data", md + n], ["pump"],
+                ["ack", "even"], ["advance", 400], ["max_data", md + 2 * n + 1], ["pump"], ["ack", "all"]]})
+    # MAX_STREAMS exactly at / one below / one above the index of the blocked stream
+    for uni in (0, 1):
+        for k in (1, 2, 3):
+            base = 2 if uni else 0
+            out.append({"seed": 3, "peer": [1000, 100, 100, 100, 0, 0], "steps": [
+                ["send", base + 4 * k, 5, 0], ["pump"], ["max_streams", uni, k - 1], ["pump"], ["max_streams", uni, k], ["pump"],
+                ["reset", base + 4 * k, 1], ["stop", 4 * k, 2], ["pump"], ["max_streams", uni, k + 1], ["pump"], ["ack", "all"]]})
     # out-of-order creation of blocked streams (only the head of the blocked list is examined on MAX_STREAMS)
     out.append({"seed": 3, "peer": [1000, 100, 100, 100, 1, 1], "steps": [
         ["send", 8, 5, 0], ["send", 4, 6, 0], ["pump"], ["max_streams", 0, 2], ["pump"], ["max_streams", 0, 3], ["pump"]]})
@@ -805,26 +807,98 @@ def suite(ctx):
         return "get" in r["names"] and any(n.startswith("deliv") or n.startswith("max_") for n in r["names"])
 
     class S(corr.Suite):
+        """corr.Suite with its own batch loop: one scenario run serves the model input, the expected output and the
+        oracle; EVERY oracle failure goes to ctx.violation with its signature, so that the shared known_findings.json
+        alone decides between KNOWN-FINDING and VIOLATION.  An unlisted signature is shrunk and reported (at most
+        twice per distinct signature; further scenarios with an already reported signature are only counted)."""
+        sig_reported = collections.Counter()
+        dis_reported = 0
+
+        def _unknown(self, case):
+            return [(w, sg) for w, sg in all_violations(case) if _known_id(ctx, sg) is None]
+
         def run(self, cases, label=""):
-            st = super().run(cases, label)
-            for c in cases:
-                r = _CACHE.get(_key(c))
-                if r:
-                    for n in r["names"]:
-                        st["op_histogram"][n] += 1
-                    st["steps"] += len(r["names"])
-                    w = r.get("wire") or {}
-                    st["outcome_histogram"]["closed_by_subject" if w.get("closed") is not None else "closed_by_real_peer" if w.get("peer_closed") is not None else
-                                            ("fair_phase_reached" if w.get("progress") else "no_fair_phase")] += 1
+            import time
+            t0 = time.time()
+            st = self.stats
+            results = [_result(c) for c in cases]
+            gots = core.run_model(self.model, [r["tin"] for r in results])
+            for c, r, got in zip(cases, results, gots):
+                exp = r["tout"]
+                st["cases"] += 1
+                ops = _steps(c)
+                st["size_histogram"][corr._bucket(len(r["names"]))] += 1
+                for o in ops:
+                    st["op_histogram"]["step:" + o[0]] += 1
+                for n in r["names"]:
+                    st["op_histogram"][n] += 1
+                st["steps"] += len(r["names"])
+                w = r.get("wire") or {}
+                st["outcome_histogram"]["closed_by_subject" if w.get("closed") is not None else
+                                        "closed_by_real_peer" if w.get("peer_closed") is not None else
+                                        ("fair_phase_reached" if w.get("progress") else "no_fair_phase")] += 1
+                key = json.dumps(r["tin"])
+                if key not in self._seen:
+                    self._seen.add(key)
+                    if nontrivial(c, exp):
+                        st["distinct_nontrivial"] += 1
+                if len(st["samples"]) < 3:
+                    st["samples"].append({"suite": self.name, "case": corr._short(c), "output_tokens": exp[:40]})
+                # ---- implementation oracle
+                seen = set()
+                failed = False
+                for what, sig in all_violations(c):
+                    k = json.dumps(sig, sort_keys=True)
+                    if k in seen:
+                        continue
+                    seen.add(k)
+                    kid = _known_id(ctx, sig)
+                    if kid is not None:
+                        KNOWN_HITS[kid] += 1
+                        ctx.violation("impl-violation", "%s: %s" % (self.name, what), corr._short(c, 4000), signature=sig)
+                        continue
+                    failed = True
+                    if self.sig_reported[k] >= 2:
+                        st["outcome_histogram"]["violation_with_already_reported_signature"] += 1
+                        continue
+                    self.sig_reported[k] += 1
+                    small = self.shrink(c, lambda x, k=k: any(json.dumps(sg, sort_keys=True) == k for _, sg in all_violations(x)),
+                                        max_steps=120)
+                    w2 = next((ww for ww, sg in all_violations(small) if json.dumps(sg, sort_keys=True) == k), what)
+                    if not ctx.violation("impl-violation", "%s: %s" % (self.name, w2), corr._short(small, 4000), signature=sig):
+                        corr._save_corpus(ctx, self.name, small)
+                if failed:
+                    st["oracle_failures"] += 1
+                # ---- model correspondence
+                if exp != got:
+                    st["disagreements"] += 1
+                    if S.dis_reported < 3:
+                        S.dis_reported += 1
+                        small = self.shrink(c, lambda x: self.disagree(x)[0], max_steps=120)
+                        _, e2, g2 = self.disagree(small)
+                        corr._save_corpus(ctx, self.name, small)
+                        bad2 = self._unknown(small)
+                        if bad2:
+                            ctx.violation("impl-violation", "%s: %s" % (self.name, bad2[0][0]), corr._short(small, 4000),
+                                          signature=bad2[0][1], extra={"impl_output": e2[:400], "model_output": g2[:400]})
+                        else:
+                            ctx.violation("correspondence",
+                                          "%s: model and implementation disagree (property oracle passes on this case)" % self.name,
+                                          corr._short(small, 4000), signature={"suite": self.name, "kind": "correspondence"},
+                                          extra={"impl_output": e2[:400], "model_output": g2[:400], "correspondence": self.name},
+                                          no_input=True)
             _CACHE.clear()
+            st["wall_s"] += time.time() - t0
             return st
 
-    return S(ctx, "flowsend", "exec_flowsend", fs_encode, fs_impl, fs_oracle, _steps, _rebuild,
+    S.sig_reported = collections.Counter()
+    S.dis_reported = 0
+    return S(ctx, "flowsend", "exec_flowsend", fs_encode, fs_impl, lambda c: (all_violations(c) or [None])[0], _steps, _rebuild,
              nontrivial=nontrivial, opname=lambda o: "step:" + o[0], simplify=_simplify)
 
 
 def run(ctx):
-    CANDIDATE_HITS.clear()
+    KNOWN_HITS.clear()
     s = suite(ctx)
     s.run(corr.load_corpus("C06", s.name), "corpus")
     s.run(directed_cases(), "directed")
@@ -836,14 +910,12 @@ def run(ctx):
         s.run(cases[i:i + batch])
     return corr.merge_coverage(
         [s],
-        "scenario = peer limits (0/1/B-1/B/B+1/2B per parameter) + application writes/resets around them + puppet "
-        "schedule of MAX_DATA/MAX_STREAM_DATA/MAX_STREAMS (also non-increasing), STOP_SENDING, selective ACKs, time "
+        "scenario = peer limits (0/1/B-1/B/B+1/2B per parameter) + application writes/resets/stop_stream around them + "
+        "puppet schedule of MAX_DATA/MAX_STREAM_DATA/MAX_STREAMS (also non-increasing), STOP_SENDING, selective ACKs, time "
         "(loss, PTO, retransmission), pre-handshake writes, 0-RTT with remembered then different (higher, lower, "
-        "rejected) handshake limits, final fair phase; distinct = distinct model op sequence, non-trivial = at least "
-        "one STREAM frame call and one delivery outcome or MAX_* frame",
-        {"candidate_findings_hit": dict(CANDIDATE_HITS),
-         "candidate_findings": [{"id": c["id"], "match": c["match"], "what": c["what"]} for c in LOCAL_CANDIDATES],
-         "exhaustive_small_scope": False})
+        "rejected) handshake limits, several streams competing for one packet, final fair phase; distinct = distinct "
+        "model op sequence, non-trivial = at least one STREAM frame call and one delivery outcome or MAX_* frame",
+        {"known_finding_scenarios": dict(KNOWN_HITS), "exhaustive_small_scope": False})
 
 
 def replay(ctx, rep):
@@ -854,5 +926,5 @@ def replay(ctx, rep):
     d, e, g = s.disagree(case)
     r = _result(case)
     return {"disagree": d, "impl": e, "model": g, "ops": r["names"],
-            "oracle": wire_oracle(r["wire"]) if r.get("wire") else r.get("error"),
-            "oracle_after_candidate_filter": fs_oracle(case)}
+            "oracle": all_violations(case),
+            "known_finding_ids": [_known_id(ctx, sg) for _, sg in all_violations(case)]}
